@@ -49,7 +49,7 @@ def _ground_lens(exprs):
             todo.append(x.body())
             continue
         if z3.is_app(x):
-            if x.decl().name() == "len" and x.num_args() == 1 and not _has_var(x):
+            if x.decl().name().startswith("len!") and x.num_args() == 1 and not _has_var(x):
                 out[i] = x
             todo.extend(x.children())
     return list(out.values())[:40]
@@ -225,15 +225,120 @@ def slice_pc(pc, goal):
     return [p for i, (p, _) in enumerate(items) if i in kept_idx]
 
 
+_wit = [0]
+
+
+def _ground_list_terms(exprs):
+    from . import seqs as Q
+    out, seen, todo = [], set(), list(exprs)
+    while todo:
+        x = todo.pop()
+        i = x.get_id()
+        if i in seen:
+            continue
+        seen.add(i)
+        if z3.is_quantifier(x):
+            continue
+        if z3.is_app(x):
+            if Q.is_list_sort(x.sort()) and not _has_var(x):
+                out.append(x)
+            todo.extend(x.children())
+    out.sort(key=lambda t: len(str(t)))
+    return out
+
+
+def is_wf_quantifier(a):
+    """the engine's quantified list well-formedness axioms (recognised by their bound-variable names)"""
+    if not z3.is_quantifier(a):
+        return z3.is_app(a) and a.decl().kind() == z3.Z3_OP_IMPLIES and is_wf_quantifier(a.arg(1))
+    n = a.var_name(0)
+    return n == "r!wf" or n.startswith("a!wf") or n.startswith("i!can")
+
+
+def ground_wf_instances(exprs):
+    from . import seqs as Q
+    return [Q.NonNegLen(t) for t in _ground_list_terms(exprs)]
+
+
+def extensionality_witnesses(exprs):
+    """Quantifier-free consequences of list canonicity for model search: for every equality atom between lists a, b (also
+    through one or two levels of record/Optional fields) a fresh index k with
+        a != b  ==>  len a != len b  \\/  (0 <= k < len a  /\\  a[k] != b[k])
+    so that a model found WITHOUT the quantified canonical-form axioms cannot make two lists differ only in the
+    unobservable cells outside [0, len)."""
+    from . import seqs as Q
+    out = []
+    seen = set()
+    pairs = []
+    todo = list(exprs)
+    while todo:
+        x = todo.pop()
+        i = x.get_id()
+        if i in seen:
+            continue
+        seen.add(i)
+        if z3.is_quantifier(x):
+            continue                      # atoms under binders mention bound variables
+        if z3.is_app(x):
+            if (z3.is_eq(x) or z3.is_distinct(x)) and x.num_args() == 2:
+                pairs.append((x.arg(0), x.arg(1), 0))
+            todo.extend(x.children())
+    # every pair of ground list terms of one sort (capped): a disequality forced through congruence (f(a) != f(b)) has no
+    # explicit atom
+    by_sort = {}
+    for x in _ground_list_terms(exprs):
+        by_sort.setdefault(x.sort().name(), []).append(x)
+    for ts in by_sort.values():
+        ts = ts[:24]
+        for i in range(len(ts)):
+            for j in range(i + 1, len(ts)):
+                pairs.append((ts[i], ts[j], 1))
+    done = set()
+    while pairs:
+        a, b, d = pairs.pop()
+        key = (a.get_id(), b.get_id())
+        if key in done or _has_var(a) or _has_var(b):
+            continue
+        done.add(key)
+        srt = a.sort()
+        if Q.is_list_sort(srt):
+            _wit[0] += 1
+            k = z3.Int(f"k!ext{_wit[0]}")
+            out.append(z3.Implies(a != b, z3.Or(Q.Length(a) != Q.Length(b),
+                                                z3.And(0 <= k, k < Q.Length(a), Q.At(a, k) != Q.At(b, k)))))
+            if d < 2:
+                pairs.append((Q.At(a, k), Q.At(b, k), d + 1))
+        elif isinstance(srt, z3.DatatypeSortRef) and d < 2:
+            for ci in range(srt.num_constructors()):
+                c = srt.constructor(ci)
+                for fi in range(c.arity()):
+                    acc = srt.accessor(ci, fi)
+                    if Q.is_list_sort(acc.range()) or isinstance(acc.range(), z3.DatatypeSortRef):
+                        pairs.append((acc(a), acc(b), d + 1))
+    return out
+
+
+def _dedupe(xs):
+    seen, out = set(), []
+    for x in xs:
+        i = x.get_id()
+        if i not in seen:
+            seen.add(i)
+            out.append(x)
+    return out
+
+
 def discharge(axioms, pc, goal, timeout_ms=None, both=False, wf_axioms=()):
     timeout_ms = timeout_ms or QUICK_MS
+    axioms = _dedupe(axioms)
+    wf_axioms = _dedupe(wf_axioms)
     # 1. goal-directed slice of the hypotheses (sound: fewer hypotheses); 2. the full path condition
     sliced = slice_pc(list(pc), goal)
     if len(sliced) < len(pc):
         q1 = sliced + [goal]
         ax1 = relevant(list(axioms), q1)
         wf1 = relevant(list(wf_axioms), q1 + ax1)
-        r = _discharge_rel(ax1, sliced, goal, min(timeout_ms, 5000), False, wf1)
+        r = _discharge_rel(ax1, sliced, goal, min(timeout_ms, 5000), False, wf1, search=False)
         if r.status == "discharged" and not both:
             return r
     query = list(pc) + [goal]
@@ -242,22 +347,34 @@ def discharge(axioms, pc, goal, timeout_ms=None, both=False, wf_axioms=()):
     return _discharge_rel(axioms, pc, goal, timeout_ms, both, wf_axioms)
 
 
-def _discharge_rel(axioms, pc, goal, timeout_ms=None, both=False, wf_axioms=()):
+def _discharge_rel(axioms, pc, goal, timeout_ms=None, both=False, wf_axioms=(), search=True):
     """prove  axioms /\\ wf_axioms /\\ pc  ==>  goal.  On `unknown` the query is repeated without the list
     well-formedness axioms: `unsat` there still proves the goal (fewer hypotheses); `sat` there yields a candidate
     counter-model (the dropped axioms only fix unobservable cells), flagged `model_modulo_wf`, to be replayed."""
     timeout_ms = timeout_ms or QUICK_MS
     first = min(timeout_ms, 6000) if wf_axioms else timeout_ms
     r = _discharge(list(axioms) + list(wf_axioms), pc, goal, first, both)
-    if r.status != "undecided" or not wf_axioms:
+    if r.status != "undecided" or not search:
         return r
-    r2 = _discharge(list(axioms), pc, goal, timeout_ms, False)
+    # model search without the quantified canonical-form axioms, but with their quantifier-free extensionality consequences
+    ax2 = [a for a in axioms if not is_wf_quantifier(a)]
+    base = list(pc) + [goal] + [a for a in ax2 if not z3.is_quantifier(a)]
+    wits = extensionality_witnesses(base) + ground_wf_instances(base)
+    r2 = _discharge(ax2, list(pc) + wits, goal, timeout_ms, False, search=True)
     if r2.status == "discharged":
         r2.secs += r.secs
         return r2
     if r2.status == "refuted":
+        if getattr(r2, "candidate", False) and first < timeout_ms:
+            # a candidate from E-matching saturation is only reported after the full proof attempt has also failed
+            r3 = _discharge(list(axioms) + list(wf_axioms), pc, goal, timeout_ms, both)
+            if r3.status == "discharged":
+                r3.secs += r.secs + r2.secs
+                return r3
+            r2.secs += r3.secs
         r2.secs += r.secs
-        r2.reason = (r2.reason + "; " if r2.reason else "") + "counter-model found after dropping the list-canonical-form axioms (full query: unknown)"
+        r2.reason = (r2.reason + "; " if r2.reason else "") + ("counter-model of the query with the quantified list well-formedness axioms replaced by "
+                                                               "their ground instances and quantifier-free extensionality consequences (full query: unknown)")
         r2.modulo_wf = True
         return r2
     if first < timeout_ms:
@@ -267,8 +384,22 @@ def _discharge_rel(axioms, pc, goal, timeout_ms=None, both=False, wf_axioms=()):
     return r
 
 
-def _discharge(axioms, pc, goal, timeout_ms=None, both=False):
+def _discharge(axioms, pc, goal, timeout_ms=None, both=False, search=False):
     parts = split_goal(goal)
+    if search:
+        t0 = time.time()
+        worst = None
+        for hyps, g in parts:
+            r = discharge1_search(axioms, list(pc) + hyps, g, timeout_ms)
+            if r.status == "refuted":
+                r.secs = time.time() - t0
+                return r
+            if r.status == "undecided" and worst is None:
+                worst = r
+        if worst is not None:
+            worst.secs = time.time() - t0
+            return worst
+        return Result("discharged", "z3-5.1(api)", time.time() - t0)
     if len(parts) == 1:
         return discharge1(axioms, list(pc) + parts[0][0], parts[0][1], timeout_ms, both)
     t0 = time.time()
@@ -294,6 +425,49 @@ def _simp(e):
         return z3.simplify(e, elim_and=False, som=False, blast_select_store=False)
     except z3.Z3Exception:
         return e
+
+
+def discharge1_search(axioms, pc, goal, timeout_ms=None):
+    """model search for  axioms /\\ pc /\\ not goal  (the caller has replaced the quantified well-formedness axioms by ground
+    instances).  1. complete search (MBQI): `sat` is a model of every remaining axiom.  2. E-matching only: when the solver
+    stops with `unknown: incomplete quantifiers` (saturation, not a timeout) its candidate model satisfies the ground part
+    and every instance E-matching produced -- the Boogie/Dafny notion of a counterexample; flagged `candidate`."""
+    timeout_ms = timeout_ms or QUICK_MS
+    t0 = time.time()
+    spc = [_simp(p) for p in pc]
+    ng = z3.Not(_simp(goal))
+    s = _solver(min(timeout_ms, 8000))
+    s.add(*axioms)
+    s.add(*spc)
+    s.add(ng)
+    r = s.check()
+    if r == z3.unsat:
+        return Result("discharged", "z3-5.1(api)", time.time() - t0)
+    if r == z3.sat:
+        return Result("refuted", "z3-5.1(api)", time.time() - t0, model=s.model())
+    s = z3.SimpleSolver()         # the plain SMT core keeps its candidate model on `unknown`
+    s.set("timeout", min(timeout_ms, 15000))
+    s.set("mbqi", False)
+    s.add(*axioms)
+    s.add(*spc)
+    s.add(ng)
+    r = s.check()
+    if r == z3.unsat:
+        return Result("discharged", "z3-5.1(api)", time.time() - t0)
+    if r == z3.sat:
+        return Result("refuted", "z3-5.1(api)", time.time() - t0, model=s.model())
+    reason = s.reason_unknown()
+    if "incomplete" in reason:
+        try:
+            m = s.model()
+        except z3.Z3Exception:
+            m = None
+        if m is not None:
+            res = Result("refuted", "z3-5.1(api, E-matching saturation)", time.time() - t0, model=m,
+                         reason="candidate counter-model: satisfies the ground facts and every E-matching instance of the quantified axioms")
+            res.candidate = True
+            return res
+    return Result("undecided", "z3-5.1(api)", time.time() - t0, reason=f"unknown: {reason}")
 
 
 def discharge1(axioms, pc, goal, timeout_ms=None, both=False):
